@@ -9,7 +9,7 @@ from lib import pcg
 from lib.common import Run, hx, unhx, lean_child
 
 M64 = (1 << 64) - 1
-MAXN = (1 << 63) - 2
+MAXN = (1 << 63) - 1     # every positive side count an int64 holds (2^63-1 used to roll 0)
 
 
 def gen_cases(run, tier):
@@ -59,7 +59,7 @@ def gen_cases(run, tier):
                         break
                     st = r.getrandbits(128)
     # 3. side counts at and beyond the documented limit, zero, negative
-    for n in (0, MAXN + 1, -1, -5, -(1 << 62), -(1 << 63)):
+    for n in (0, MAXN, -1, -5, -(1 << 62), -(1 << 63)):
         cases.append((r.getrandbits(128), n, "limit"))
         cases.append((pcg.state_for_first_word(M64, 12345), n, "limit"))
     return cases
